@@ -667,7 +667,7 @@ def write_pdf(matrix, matrix_size, out, scale=1, border=None, dark='#000',
         # If the background color is defined, a rect is drawn in the background
         append_cmd('{} {} {} rg'.format(*to_pdf_color(light)))
         append_cmd(f'0 0 {width} {height} re')
-        append_cmd('f q')
+        append_cmd('f')
     # Set the stroke color only iff it is not black (default)
     if not _color_is_black(dark):
         append_cmd('{} {} {} RG'.format(*to_pdf_color(dark)))
